@@ -36,20 +36,20 @@ type resultRec struct {
 }
 
 type caseRec struct {
-	ImpA1    []string             `json:"impA1"`
-	ImpA2    []string             `json:"impA2"`
-	ImpB1    []string             `json:"impB1"`
-	BKind    string               `json:"bKind"`
-	CCommits []int                `json:"cCommits"`
-	DupPath  bool                 `json:"dupPath"`
-	Missing  bool                 `json:"missing"`
-	WktVendored bool              `json:"wktVendored"`
-	WktVendoredC bool             `json:"wktVendoredC"`
-	BuildMustFailA bool           `json:"buildMustFailA"`
-	Newest   int                  `json:"newest"`
-	AnyCycle bool                 `json:"anyCycle"`
-	FromTargets []string          `json:"fromTargets"`
-	Results  map[string]resultRec `json:"results"`
+	ImpA1          []string             `json:"impA1"`
+	ImpA2          []string             `json:"impA2"`
+	ImpB1          []string             `json:"impB1"`
+	BKind          string               `json:"bKind"`
+	CCommits       []int                `json:"cCommits"`
+	DupPath        bool                 `json:"dupPath"`
+	Missing        bool                 `json:"missing"`
+	WktVendored    bool                 `json:"wktVendored"`
+	WktVendoredC   bool                 `json:"wktVendoredC"`
+	BuildMustFailA bool                 `json:"buildMustFailA"`
+	Newest         int                  `json:"newest"`
+	AnyCycle       bool                 `json:"anyCycle"`
+	FromTargets    []string             `json:"fromTargets"`
+	Results        map[string]resultRec `json:"results"`
 }
 
 type input struct {
